@@ -118,6 +118,13 @@ def rest_rules(ctx):
     fs2_ = ctx.view(c10.S2M)
     if fs2_ is not None:
         c10.s2m_rules(dep(ctx, "C17", "C10"), fs2_)
+    fm2_ = ctx.view(c10.M2S)
+    if fm2_ is not None:
+        c10.m2s_rules(dep(ctx, "C17", "C10"), fm2_)        # the inversion is one atomic entry() per run: no lost update
+        c07.atomic_idiom_rule(dep(ctx, "C17", "C07"), "C07.A", fm2_, "bin_sequences")
+    fcc_ = ctx.view(c07.CHUNK)
+    if fcc_ is not None:
+        c07.take_rule(dep(ctx, "C17", "C07"), fcc_)        # no record is dropped at a chunk boundary
     # the counter rebuilds its whole (partition, chunk) grid and the coverage table on every run
     fcc, fcm, fcn = ctx.view(c07.CHUNK), ctx.view(c07.MERGE), ctx.view(c07.COUNT)
     d = dep(ctx, "C17", "C07")
